@@ -419,7 +419,8 @@ class C18(Prop):
             'watchers\' workers, foreign pids (0, 1, the daemon itself), dead '
             'and unknown pids, and signum drawn from every signal.Signals '
             'member in all spellings, SIGRTMIN+n and near-miss strings; '
-            'interleaved with worker deaths and restarts. the kernel signal '
+            'interleaved with worker deaths and restarts (and pids of dead '
+            'workers handed out again to strangers). the kernel signal '
             'log is judged at delivery time (confinement) and per request '
             '(exact target set and signal number). non-trivial = a request '
             'with pid/children/recursive addressing or a near-miss '
@@ -522,6 +523,24 @@ class C18(Prop):
                             'sync': rng.random() < 0.5})
             elif x < 0.93:
                 ops.append(gen.gen_death(rng, nw, inflight=False))
+                if rng.random() < 0.5:
+                    # the dead worker is waited for by a kill request (it
+                    # stays in the table until the next periodic check), its
+                    # pid is handed out again, and requests name it
+                    wd = ops[-1]['w']
+                    ops.extend([
+                        {'op': 'req', 'cmd': 'kill', 'w': wd,
+                         'props': {'graceful_timeout': 0.1},
+                         'waiting': True, 'place': 'now', 'sync': True},
+                        {'op': 'pidreuse', 'w': wd, 'j': rng.randrange(3),
+                         'place': 'now'},
+                        {'op': 'req', 'cmd': 'signal', 'w': wd,
+                         'props': {'signum': rng.choice([10, 15, 'usr1']),
+                                   'pid': {'reused': wd}},
+                         'waiting': False, 'place': 'now', 'sync': True},
+                        {'op': 'req', 'cmd': 'signal', 'w': wd,
+                         'props': {'signum': rng.choice([10, 12, 'hup'])},
+                         'waiting': False, 'place': 'now', 'sync': True}])
             else:
                 ops.append({'op': 'quiet', 'checks': rng.choice([0, 1])})
         return {'cfg': cfg, 'ops': ops}
